@@ -455,7 +455,10 @@ BOUNDED = {
                  what="dnf_mapping_is_empty / check_mapping_empty (assumed per-clause steps of the object decider): `A <: B | C` for objects with properties a, b (absent / required / optional, string or number) and an optional index signature over `string` or over the keys \"a\" | \"c\" (TypeScript-valid shapes only), against brute force over the 27 objects with keys a, b, c; exact reading on the left, structural on the right"),
             dict(family="refs", obligation="conversion/bounded-standin/refs.convert_to_sem_type",
                  known_cases="contracts/known_refs_cases.txt",
-                 what="convert_to_sem_type and its *_runtype_ref_memo cuts (assumed conversion of named, possibly recursive types) followed by is_subtype: `S(v) <: B` for the singleton type S(v) of each of 611 finite values (null, 1, \"a\", lists up to length 3, linked-list objects, nesting depth 2) against 57 types over 9 named definitions (recursive tuple with itself as rest, mutually recursive tuples, recursive object, named closed/open tuples, ...); the oracle is membership of v in B by recursion on the value, exact in both directions; questions whose conversion is refused (Err) are skipped; a panic of the real code is a failing case")],
+                 what="convert_to_sem_type and its *_runtype_ref_memo cuts (assumed conversion of named, possibly recursive types) followed by is_subtype: `S(v) <: B` for the singleton type S(v) of each of 611 finite values (null, 1, \"a\", lists up to length 3, linked-list objects, nesting depth 2) against 57 types over 9 named definitions (recursive tuple with itself as rest, mutually recursive tuples, recursive object, named closed/open tuples, ...); the oracle is membership of v in B by recursion on the value, exact in both directions; questions whose conversion is refused (Err) are skipped; a panic of the real code is a failing case"),
+            dict(family="refsshared", obligation="conversion/bounded-standin/refsshared.memo",
+                 known_cases="contracts/known_refsshared_cases.txt",
+                 what="the ASSUMED memo cuts (list_memo / mapping_memo / *_runtype_ref_memo persist in a SemTypeContext): the same 23769 questions as `refs`, asked in sequence against ONE context as in a compiler session, so that an answer memoised under the in-progress assumption of an earlier question would show")],
 }
 
 
